@@ -2,10 +2,10 @@ import BSModel.Base.PStr
 import BSModel.Gen.Pretty
 /-! # Pretty-printing: `Tag.decode(indent_level=…)` / `prettify()`   (property C14)
 
-Code-mirror of `bs4/element.py` `Tag.decode` (:2340-2447), `Tag._event_stream` (:2462-2504, as the balanced event list of
+Code-mirror (line numbers as of /repo commit 30770a7) of `bs4/element.py` `Tag.decode` (:2350-2457), `Tag._event_stream` (:2472-2514, as the balanced event list of
 the tree — the tag-stack walk over the pre-order is tied to this list by the harness, op `ev`), `Tag._indent_string`
-(:2506-2532), `Tag._should_pretty_print` (:2596-2605), `Tag.is_empty_element` (:1815-1831), `Tag.prettify` (:2607-2623),
-`Tag.decode_contents` (:2625-2651), `PageElement._self_and` (hidden receiver skipped), and of `bs4/formatter.py`
+(:2516-2542), `Tag._should_pretty_print` (:2606-2615), `Tag.is_empty_element` (:1825-1841), `Tag.prettify` (:2617-2633),
+`Tag.decode_contents` (:2635-2661), `PageElement._self_and` (hidden receiver skipped), and of `bs4/formatter.py`
 `Formatter.__init__` (:125-136, normalisation of `indent`).
 
 Opaque pieces.  What `_format_tag(opening=True/False)` returns for a tag and what `output_ready(formatter)` returns for a
@@ -53,7 +53,7 @@ def rep (s : PStr) (n : Int) : PStr := (List.replicate n.toNat s).flatten
 
 /-! ### trees and their event stream -/
 
-/-- `Tag._should_pretty_print()` as `decode` calls it (no argument, so `indent_level = 1 is not None`), element.py:2596-2605:
+/-- `Tag._should_pretty_print()` as `decode` calls it (no argument, so `indent_level = 1 is not None`), element.py:2606-2615:
     `not self.preserve_whitespace_tags or self.name not in self.preserve_whitespace_tags`
     (`None` and the empty set are both falsy). -/
 def shouldPrettyPrint (pwt : Option (List PStr)) (name : PStr) : Bool :=
@@ -71,7 +71,7 @@ inductive Node where
   | elem (id : Nat) (opn cls : PStr) (pre : Bool) (kids : List Node)
 deriving Repr
 
-/-- `is_empty_element` (element.py:1815-1831): `len(self.contents) == 0 and self.can_be_empty_element is True` decides
+/-- `is_empty_element` (element.py:1825-1841): `len(self.contents) == 0 and self.can_be_empty_element is True` decides
     between the two tag constructors. -/
 def mkTag (id : Nat) (opn cls : PStr) (pwt : Option (List PStr)) (name : PStr) (canBeEmpty : Bool) (kids : List Node) : Node :=
   if kids.isEmpty && canBeEmpty then .void opn else .elem id opn cls (!shouldPrettyPrint pwt name) kids
@@ -91,7 +91,7 @@ def Ev.piece : Ev → PStr
   | .text p => p
 
 mutual
-/-- `_event_stream` over `self_and_descendants` of a visible element (element.py:2462-2504): start, the children's
+/-- `_event_stream` over `self_and_descendants` of a visible element (element.py:2472-2514): start, the children's
     events, end; one event for an empty-element tag or a string. -/
 def events : Node → List Ev
   | .str s => [.text s]
@@ -115,7 +115,7 @@ def receiverStream (hidden contentsOnly : Bool) (t : Node) : List Ev :=
 
 /-! ### `decode` -/
 
-/-- `_indent_string` (element.py:2506-2532) -/
+/-- `_indent_string` (element.py:2516-2542) -/
 def indentString (unit s : PStr) (indentLevel : Int) (indentBefore indentAfter : Bool) : PStr :=
   let spaceBefore := if indentBefore && indentLevel != 0 then rep unit indentLevel else []
   let spaceAfter := if indentAfter then [10] else []
@@ -127,21 +127,21 @@ structure St where
   lit : Option Nat
 deriving Repr
 
-/-- one iteration of the loop in `decode` (element.py:2384-2446): the piece appended and the next state -/
+/-- one iteration of the loop in `decode` (element.py:2394-2456): the piece appended and the next state -/
 def step (unit : PStr) (st : St) (ev : Ev) : PStr × St :=
-  -- :2385-2395  the piece; an end event decrements the level first
+  -- :2395-2405  the piece; an end event decrements the level first
   let piece := ev.piece
   let lvl : Option Int := match ev with
     | .stop _ _ => st.lvl.map (· - 1)
     | _ => st.lvl
-  -- :2406-2409  `if string_literal_tag:` (a Tag is always truthy)
+  -- :2416-2419  `if string_literal_tag:` (a Tag is always truthy)
   let dflt : Bool := st.lit.isNone
-  -- :2414-2432  entering / leaving string literal mode
+  -- :2424-2442  entering / leaving string literal mode
   let (before, after, lit) : Bool × Bool × Option Nat := match ev with
     | .start i _ pre => if st.lit.isNone && pre then (true, false, some i) else (dflt, dflt, st.lit)
     | .stop i _ => if st.lit == some i then (false, true, none) else (dflt, dflt, st.lit)
     | _ => (dflt, dflt, st.lit)
-  -- :2436-2446
+  -- :2446-2456
   match lvl with
   | none => (piece, ⟨none, lit⟩)
   | some l =>
@@ -164,7 +164,7 @@ inductive LevelArg where
   | int (n : Int)
 deriving Repr, DecidableEq
 
-/-- element.py:2373-2374 `if indent_level is True: indent_level = 0` (`False` is the int 0 already) -/
+/-- element.py:2383-2384 `if indent_level is True: indent_level = 0` (`False` is the int 0 already) -/
 def levelOf : LevelArg → Option Int
   | .none => Option.none
   | .true => some 0
@@ -180,7 +180,7 @@ def pieces (unit : PStr) : St → List Ev → List PStr
 def decodeImpl (unit : PStr) (indentLevel : Option Int) (evs : List Ev) : PStr :=
   (pieces unit ⟨indentLevel, none⟩ evs).flatten
 
-/-- `Tag.prettify(formatter=…)` with `encoding=None` (element.py:2620-2621) -/
+/-- `Tag.prettify(formatter=…)` with `encoding=None` (element.py:2630-2631) -/
 def prettifyImpl (unit : PStr) (hidden : Bool) (t : Node) : PStr :=
   decodeImpl unit (some 0) (receiverStream hidden false t)
 
